@@ -95,4 +95,28 @@ PROPS = {
         ],
         "assumptions": ["see C14, C18, C19"],
     },
+    "C11": {
+        "title": "Quorum arithmetic: commit index and vote tallies are exact",
+        "modules": ["top", "prelude", "pb", "inflights", "progress", "quorum", "tracker"],
+        "body": ["quorum", "tracker"],
+        "modes": ["P"],
+        "claim": "FULL for the arithmetic; the 12-line unsafe collection of the acknowledged indexes into the scratch array and the sort are assumed (R10/R9)",
+        "decided": [
+            "util::majority(n) = n/2+1 (2r > n, 2(r-1) <= n)",
+            "MajorityConfig::committed_index: empty => (u64::MAX, true); without group commit the result IS the largest index acknowledged by a "
+            "majority of the voter set (count-based definition over the set, for every voter set and every ack assignment); with group commit "
+            "the result never exceeds it and, when every voter has a group and the flag is returned, equals the largest index <= the quorum "
+            "index replicated into two different groups; with a single group it is the quorum index",
+            "MajorityConfig::vote_result equals the model (Won iff yes-set is a majority, Lost iff yes+missing cannot reach one, empty => Won) "
+            "for every check function; JointConfig::{committed_index (min of the halves), vote_result (3x3 table), is_singleton, contains}",
+            "ProgressTracker::{maximal_committed_index (ack = matched, group = commit_group_id), vote_result, has_quorum, is_singleton, get} as wrappers",
+        ],
+        "undecided": ["ProgressTracker::{tally_votes counts, record_vote, quorum_recently_active} are not under contract in this revision"],
+        "assumptions": [
+            "R10: the unsafe MaybeUninit stack-array / heap Vec fill of committed_index lists ack(v) once per voter (assumed; no back end here can execute it)",
+            "R9: sort_by(descending index) is a sorted permutation",
+            "crate::HashSet/HashMap (fxhash) behave like std's with a lawful hasher; vstd's HashSet/HashMap model",
+            "voter sets have < 2^32 members",
+        ],
+    },
 }
